@@ -1,21 +1,22 @@
 (* WriteFaultProofs.v - property C14, WRITE side: "if the underlying writer fails on any one of its Write calls, some
    Write or Close of the encoding stream returns an error, so Close never reports success for a message that was
-   not completely written" - as theorems about the specification functions that GoAstProofs5a / 5b / 6a / 6b tie to
+   not completely written" - as theorems about the specification functions that GoAstProofs5a / 5b / 5d / 6a / 6b tie to
    /repo's Go code (es_* = encryptStream, sas_* = signAttachedStream, sds_* = signDetachedStream, sss_* =
-   signcryptSealStream, gw_* = the base-X stream encoder, ga_* = armorEncoderStream).  Nothing of those files is
-   changed or re-proved; this file only reasons about their specification functions.
+   signcryptSealStream, gw_* = the base-X stream encoder, ga_* = armorEncoderStream WITH THE STICKY-ERROR FIX this file's
+   first version asked for: field `err`, checked first and set on every error return of Write and Close).  Nothing of
+   those files is changed or re-proved; this file only reasons about their specification functions.
 
    WHAT IS TRUE AND WHAT IS NOT (summary; details below).
    * TRUE for all six streams, for EVERY behaviour of the writer: along any sequence of calls in which every call
      (constructor/init included) returned nil, the writer took exactly the complete message (NO SILENT LOSS), and a
      call during which the writer reports an error returns a non-nil error (ERROR RETURNED AT ONCE).
-   * TRUE: encryptStream.Write, signcryptSealStream.Write and the base-X encoder (Write AND Close) are sticky.
+   * TRUE: encryptStream.Write, signcryptSealStream.Write, the base-X encoder (Write AND Close) and - since the fix - the
+     armor stream (Write AND Close) are sticky.
    * The property as worded - "Close never reports success for a message that was not completely written" - for a
      caller who calls Close after a Write has returned an error:
-     - is NOT a property of saltpack's own code.  encryptStream.Close and signcryptSealStream.Close never read the
-       err field (es_close_ignores_err, sss_close_ignores_err); signAttachedStream and armorEncoderStream have no
-       err field.  A failed encryptBlock / signcryptBlock / signBlock has already taken its block off the buffer
-       and has NOT advanced numBlocks / seqno (es_block_from_failed, sss_block_from_failed,
+     - is NOT a property of the three packet streams' own code.  encryptStream.Close and signcryptSealStream.Close never
+       read the err field (es_close_ignores_err, sss_close_ignores_err); signAttachedStream has no err field.  A failed
+       encryptBlock / signcryptBlock / signBlock has already taken its block off the buffer and has NOT advanced numBlocks / seqno (es_block_from_failed, sss_block_from_failed,
        sas_block_from_failed).  With an encoder step that refuses one packet (taking nothing) and works again:
            NewEncryptStream(v2); Write(1 MiB + 1 byte "...a") -> ErrIO;  Close() -> nil
        leaves in the writer, byte for byte, the complete, valid, authenticated message for the plaintext "a",
@@ -31,12 +32,18 @@
        Close -> "msgpack encode error: msgpack encode error: ErrIO" for NewEncryptStream, NewSignStream and
        NewSigncryptSealStream.  So for these streams the property rests on an undocumented behaviour of the
        msgpack library, not on saltpack's err fields.
-     - FAILS ON THE REAL CODE for the armor stream, which has no encoder above its writer:
+     - FAILED ON THE ORIGINAL CODE for the armor stream, which has no encoder above its writer and had no err field:
            NewArmor62EncoderStream(w, MessageTypeEncryption, ""); Write(32 x 'a') -> ErrIO (w fails at its 2nd call,
            the first word, taking nothing; every other call succeeds);  Close() -> nil
-       and w holds a well-formed armor WITHOUT its first 15 characters (ex_ar_close_after_failed_write;
-       ar_not_sticky; observed on /repo: accepted = "BEGIN SALTPACK ENCRYPTED MESSAGE. bXgPHA2GIodRKMW
-       qFoG6wORij4M5. END SALTPACK ENCRYPTED MESSAGE.\n" instead of "... N5hE1K77FJnXznZ bXgPHA2GIodRKMW ...").
+       and w held a well-formed armor WITHOUT its first 15 characters (observed on the unfixed /repo: accepted = "BEGIN
+       SALTPACK ENCRYPTED MESSAGE. bXgPHA2GIodRKMW qFoG6wORij4M5. END SALTPACK ENCRYPTED MESSAGE.\n" instead of
+       "... N5hE1K77FJnXznZ bXgPHA2GIodRKMW ...").  WITH THE FIX of /repo/armor.go (s.err; GoAstProofs5d.v ties the fixed
+       source) the property HOLDS AS WORDED for the armor stream, WITH NO HYPOTHESIS beyond the writer being honest:
+       Ar.ar_error_sticks (a Write or Close that returned an error has stored it; every later Write and Close returns it
+       and hands nothing more to the writer), Ar.ar_no_nil_close_after_error, Ar.ar_close_nil_all_nil,
+       Ar.ar_close_nil_complete; the same sequence now gives Write -> ErrIO, Close -> ErrIO and no further writer call
+       (ex_ar_close_after_failed_write).  The first patch left Close's own four error returns unstored (Close -> err;
+       Close -> nil with a word missing); the patch tied here stores them too (ex_ar_close_error_sticks).
        Inside the armored sender APIs the encryption/signing stream above it fails first (its sticky encoder), and
        closeForwarder returns that error: stack_close_nil_complete.
 
@@ -57,7 +64,10 @@
      the log, used only where no call failed.  A Write of the base-X encoder that returns nil is followed by the
      trailing copy ([pending_copy], the statement GoAstProofs5b could not run in the evaluator); one that returns an
      error returned before it.  The armor stream is [ga_write]/[ga_close] with the shared bytes.Buffer read as in
-     GoAstProofs5b; its run ends with the first Close (ga_close returns the writer, not the object).  5b has no
+     GoAstProofs5b/5d; its object [ast] carries the sticky error s.err, which after every call is the error that call
+     returned; a run ([ar_run] = the generic [run]) goes on after an error and after a Close.  What happens after a Close
+     that SUCCEEDED is outside the property (s.err stays nil; a second Close would write the last characters and the
+     footer again): the no-silent-loss theorem asks that Close, if called, is the last call ([close_last]).  5d has no
      specification function for newArmorEncoderStream: the session starts from the object it returns, over a
      writer that already holds header ++ ". ".
 
@@ -74,8 +84,9 @@
    - Bx.bx_no_silent_loss: gobj_ok o, go_err o = None (what NewEncoder establishes: fresh_ok), 0 < ibl, 1 <= K; any
      calls, all nil ==> written_log after = written_log before ++ concat (bxe_run buffer ops) (the model's writes).
      Bx.bx_no_silent_loss_pieces: from NewEncoder, Write*; Close all nil ==> the writer holds BaseX.encode of the whole input.
-   - Ar.ar_no_silent_loss: inv st (established by the constructor: fresh_inv); any calls, all nil ==> the writer holds
-     what it held ++ the model's output (ae_run).  Ar.ar_no_silent_loss_pieces: ... = armor_seal input header footer.
+   - Ar.ar_no_silent_loss: inv st (established by the constructor: fresh_inv; includes s.err = nil); any calls with Close,
+     if any, last (close_last); all nil ==> the writer holds what it held ++ the model's output (ae_run).
+     Ar.ar_no_silent_loss_pieces: ... = armor_seal input header footer.
    - Comp.enc_armor_no_silent_loss(_seal) (COMPOSITION): encryptStream whose step is one armorEncoderStream.Write
      ([arm_step]) over the base-X encoder over a scheduled writer; init, any calls, then Close of the armor stream;
      all nil ==> the writer holds Armor62Seal (armor_seal) of exactly the bytes the in-memory encryptStream produces
@@ -91,7 +102,8 @@
      receiver objects differ only by the flag on the encoder (full simulation, *_bisim lemmas).
      SignD.sds_close_reports / sds_write_no_step: Close returns exactly its one step's error; Write makes no step.
    - Bx.bx_call_reports, Ar.ar_write_reports, Ar.ar_close_reports: a call uses j entries of the schedule; it returns nil
-     IFF all j were nil, and an error it returns is one of them.  Hypotheses: gobj_ok/go_err = None, resp. inv.
+     IFF all j were nil, and an error it returns is one of them.  Hypotheses: gobj_ok/go_err = None, resp. inv (a call
+     on a stream whose s.err is set makes no writer call at all: ar_sticky).
    5. STICKY / AFTER AN ERROR
    - Enc.es_sticky, Sc.sss_sticky: err set ==> every later Write of any run returns it and leaves the object
      untouched (nothing reaches the writer), Close calls in between do not clear it.  es_write_error_sticks /
@@ -100,8 +112,11 @@
      err = nil (same packets, same result), e kept.  es_block_from_failed / sss_block_from_failed /
      SignA.sas_block_from_failed: state after a failed block.  Examples ex_*_close_after_failed_write: the witnesses.
    - Bx.bx_sticky, bx_error_sticks: with e.err set Write AND Close return it and do nothing; a call that returned an
-     error has set it.  The base-X encoder is the one stream whose Close is sticky.
-   - Ar.ar_not_sticky: after a failed Write the armor object satisfies inv again (the next call runs normally).
+     error has set it.  The base-X encoder and (since the fix) the armor stream are the two streams whose Close is sticky.
+   - Ar.ar_sticky: with s.err set every Write AND Close of any run returns it and leaves the object (the writer's log
+     included) untouched.  Ar.ar_error_sticks: a call - Write or Close - that returned an error has stored it, so the rest
+     of any run returns that error and hands nothing more to the writer; Ar.ar_close_error_sticks: the instance for a
+     failed Close (second Close, Write after Close).  NO hypothesis: any object, any writer, any calls.
    6. C14 AS WORDED, UNDER THE STICKY-ENCODER HYPOTHESIS ([sticky_step broken s]: a step that reports an error leaves a
       broken object, and on a broken object every step reports an error and leaves it broken)
    - Enc.es_no_nil_close_after_error, Sc.sss_no_nil_close_after_error, SignA.sas_no_nil_close_after_error: in any run,
@@ -114,6 +129,12 @@
      the step (Write makes no step, Close one).
    - Enc.es_close_nil_all_nil, Sc.sss_close_nil_all_nil, SignA.sas_close_nil_all_nil: the first half of the above alone
      (sticky_step only).
+   - Ar.ar_no_nil_close_after_error: in any run of the armor stream, after a call that returned an error no later Close
+     returns nil.  Ar.ar_close_nil_all_nil: Write*; Close: the final Close returned nil ==> every call returned nil.
+     NO hypothesis (no sticky_step, no invariant: the stickiness is the stream's own).
+     Ar.ar_close_nil_complete: NewArmor62EncoderStream (writer holds header ++ ". "); Write p1; ..; Write pn; Close over a
+     writer with ANY schedule: the final Close returned nil ==> all nil AND the writer holds armor_seal (p1 ++ .. ++ pn)
+     header footer.  Only hypothesis: what the writer held at the start.
    - Comp.sign_stack_close_nil_complete, Comp.signcrypt_stack_close_nil_complete: Comp.stack_close_nil_complete (next item)
      for the attached-signature and the signcryption stream.
    - Comp.stack_close_nil_complete: encryptStream over [codec arm_step] (go-codec's sticky encoder over the armor
@@ -122,7 +143,8 @@
      writer holds armor_seal of the in-memory ciphertext.  Hypotheses: the writer held header ++ ". "; the final
      encoder object is [armor object; flag] and decodes.
    Examples (vm_compute; non-vacuity): ex_enc_complete, ex_enc_fault_reported, ex_enc_logged, ex_sas_*, ex_sds_*,
-   ex_sc_*, ex_bx_complete, ex_bx_fault_sticky, ex_ar_complete, ex_stack_complete, ex_stack_fault,
+   ex_sc_*, ex_bx_complete, ex_bx_fault_sticky, ex_ar_complete, ex_ar_close_after_failed_write (the former witness: Close now
+   returns the stored error), ex_ar_close_error_sticks, ex_stack_complete, ex_stack_fault,
    ex_enc_close_after_failed_write_codec (the witness sequence with the sticky encoder in between: Close fails). *)
 From Coq Require Import List String NArith ZArith Bool Lia.
 From Coq.Strings Require Import Byte.
@@ -2682,53 +2704,60 @@ Proof. vm_compute. split; reflexivity. Qed.
 End Bx.
 
 
-(* ================= the armor encoder stream (/repo/armor.go; specification functions ga_write / ga_close of
-   GoAstProofs5b: armorEncoderStream.Write / Close over the base-X encoder that writes into the shared buffer)
-   ================= *)
+(* ================= the armor encoder stream (/repo/armor.go WITH THE STICKY-ERROR FIX; specification functions ga_write /
+   ga_close of GoAstProofs5d: armorEncoderStream.Write / Close over the base-X encoder that writes into the shared buffer;
+   after every call s.err is the error the call returned) ================= *)
 Module Ar.
 Import GoAstProofs5b GoAstProofs5d.
 Import Bx.
 
 (* the armorEncoderStream object: the base-X encoder object, the pending characters (s.buf), nWords, the
-   output writer s.encoded *)
-Record ast := mkAst { a_o : gobj; a_chars : bytes; a_k : N; a_w : wr }.
+   output writer s.encoded, the sticky error s.err *)
+Record ast := mkAst { a_o : gobj; a_chars : bytes; a_k : N; a_w : wr; a_err : option String.string }.
 
 Section S.
 Variable footer : bytes.
 
+(* one call; the error stored in s.err is the one returned (GoAstProofs5d: go_armor_Write_aliased / _Close_aliased /
+   _Write_sticky / _Close_sticky) *)
 Definition ar_write (st : ast) (p : bytes) : outc * ast :=
-  let '(n, er, o2, chars', k', w') := ga_write (a_o st) (a_chars st) (a_k st) (a_w st) p in
-  (Ret (werr er), mkAst o2 chars' k' w').
-Definition ar_close (st : ast) : outc * wr :=
-  let (e, w4) := ga_close (a_o st) (a_chars st) (a_k st) (a_w st) footer in (Ret (werr e), w4).
+  let '(n, er, o2, chars', k', w') := ga_write (a_o st) (a_chars st) (a_k st) (a_w st) (a_err st) p in
+  (Ret (werr er), mkAst o2 chars' k' w' er).
+Definition ar_close (st : ast) : outc * ast :=
+  let '(e, o2, chars2, k2, w4) := ga_close (a_o st) (a_chars st) (a_k st) (a_w st) (a_err st) footer in
+  (Ret (werr e), mkAst o2 chars2 k2 w4 e).
+Definition call (st : ast) (c : op) : outc * ast :=
+  match c with OpWrite p => ar_write st p | OpClose => ar_close st end.
 
-(* the calls, on the object as each call leaves it (also after an error); the run ends with the first Close
-   (ga_close gives the writer, not the object, it leaves): collected errors and the final writer *)
-Fixpoint ar_run (st : ast) (ops : list op) : list outc * wr :=
-  match ops with
-  | [] => ([], a_w st)
-  | OpWrite p :: t =>
-    let (r, st') := ar_write st p in
-    match r with
-    | Ret e => let (rs, wf) := ar_run st' t in (Ret e :: rs, wf)
-    | Halt w => ([Halt w], a_w st')
-    end
-  | OpClose :: _ => let (r, wf) := ar_close st in ([r], wf)
-  end.
+(* the calls, on the object as each call leaves it (also after an error, also after a Close): collected errors and
+   the final object *)
+Definition ar_run (st : ast) (ops : list op) : list outc * ast := run call st ops.
 
 (* the object newArmorEncoderStream returns, over the writer w (which has already been handed the header) *)
-Definition fresh (w : wr) : ast := mkAst (Bx.fresh base62 128 (mkWr [] [])) [] 0 w.
+Definition fresh (w : wr) : ast := mkAst (Bx.fresh base62 128 (mkWr [] [])) [] 0 w None.
 
+(* what the constructor establishes and every call that returns nil keeps; s.err = nil is part of it *)
 Definition inv (st : ast) : Prop :=
-  gobj_ok base62 128 (a_o st) /\ go_err (a_o st) = None /\ go_w (a_o st) = mkWr [] [].
+  gobj_ok base62 128 (a_o st) /\ go_err (a_o st) = None /\ go_w (a_o st) = mkWr [] [] /\ a_err st = None.
 Definition model_of (st : ast) : ae_state := mkAe (firstn (go_nbuf (a_o st)) (go_buf (a_o st))) (a_chars st) (a_k st).
 
 Lemma fresh_inv (w : wr) : inv (fresh w).
 Proof.
-  split; [|split; reflexivity]. apply (Bx.fresh_ok base62 128). rewrite ibl62_nat. lia.
+  split; [|split; [reflexivity|split; reflexivity]]. apply (Bx.fresh_ok base62 128). rewrite ibl62_nat. lia.
 Qed.
 
-(* the model's output for a sequence of calls *)
+(* Close as the last call, if at all: what happens after a Close that SUCCEEDED (s.err stays nil, a second Close would
+   write the footer again) is outside the property *)
+Fixpoint close_last (ops : list op) : Prop :=
+  match ops with
+  | [] => True
+  | OpWrite _ :: t => close_last t
+  | OpClose :: t => t = []
+  end.
+Lemma close_last_session (pieces : list bytes) : close_last (session_ops pieces).
+Proof. unfold session_ops. induction pieces as [|p t IH]; cbn [map app close_last]; [reflexivity|exact IH]. Qed.
+
+(* the model's output for a sequence of calls (up to the first Close) *)
 Fixpoint ae_run (st : ae_state) (ops : list op) : bytes :=
   match ops with
   | [] => []
@@ -2741,57 +2770,77 @@ Proof.
   destruct (ae_write st p) as [o st']. rewrite IH. reflexivity.
 Qed.
 
+(* after every call s.err is the returned error *)
+Lemma call_stores (st : ast) (c : op) : exists er, fst (call st c) = Ret (werr er) /\ a_err (snd (call st c)) = er.
+Proof.
+  destruct c as [p|]; cbn [call]; unfold ar_write, ar_close.
+  - destruct (ga_write (a_o st) (a_chars st) (a_k st) (a_w st) (a_err st) p) as [[[[[n er] o2] chars'] k'] w'].
+    exists er. split; reflexivity.
+  - destruct (ga_close (a_o st) (a_chars st) (a_k st) (a_w st) (a_err st) footer) as [[[[e o2] chars2] k2] w4].
+    exists e. split; reflexivity.
+Qed.
+(* with s.err set a call returns it and changes nothing *)
+Lemma call_sticky (st : ast) (c : op) (x : String.string) : a_err st = Some x -> call st c = (Ret (werr (Some x)), st).
+Proof.
+  intros He. destruct st as [o chars k w e]. cbn [a_err] in He. subst e.
+  destruct c as [p|]; cbn [call]; unfold ar_write, ar_close; cbn [a_o a_chars a_k a_w a_err];
+    [rewrite ga_write_sticky|rewrite ga_close_sticky]; reflexivity.
+Qed.
+
 (* one Write against the model: the writer calls are a cutting of the model's output, made in order up to the first
-   that fails, whose error is returned; the invariant survives in every case *)
+   that fails, whose error is returned and stored; a Write that returns nil keeps the invariant *)
 Lemma write_model (st : ast) (p : bytes) : inv st ->
   let (out, m') := ae_write (model_of st) p in
   exists (calls : list bytes) (j : nat) (er : option String.string),
     List.concat calls = out /\
     run_calls calls (a_w st) = (j, er, a_w (snd (ar_write st p))) /\
-    fst (ar_write st p) = Ret (werr er) /\ inv (snd (ar_write st p)) /\
-    (er = None -> model_of (snd (ar_write st p)) = m').
+    fst (ar_write st p) = Ret (werr er) /\ a_err (snd (ar_write st p)) = er /\
+    (er = None -> inv (snd (ar_write st p)) /\ model_of (snd (ar_write st p)) = m').
 Proof.
-  intros (Hok & Herr & Hw). destruct st as [o chars k w]. cbn [a_o a_chars a_k a_w] in *.
+  intros (Hok & Herr & Hw & He). destruct st as [o chars k w e]. cbn [a_o a_chars a_k a_w a_err] in *. subst e.
   pose proof (ga_write_model o chars k w p Hok Herr Hw) as HM. cbv zeta in HM.
-  unfold model_of, ar_write. cbn [a_o a_chars a_k a_w].
+  unfold model_of, ar_write. cbn [a_o a_chars a_k a_w a_err].
   destruct (ae_write (mkAe (firstn (go_nbuf o) (go_buf o)) chars k) p) as [out m'].
-  destruct (ga_write o chars k w p) as [[[[[n er] o2] chars'] k'] w'].
+  destruct (ga_write o chars k w None p) as [[[[[n er] o2] chars'] k'] w'].
   destruct HM as (_ & Hok2 & Herr2 & Hw2 & Hbx & calls & j & Hcat & Hrc & Hst).
-  exists calls, j, er. cbn [fst snd a_o a_chars a_k a_w].
-  split; [exact Hcat|]. split; [exact Hrc|]. split; [reflexivity|]. split; [split; [exact Hok2|split; assumption]|].
-  intros He. destruct (Hst He) as [-> ->]. rewrite Hbx. destruct m'; reflexivity.
+  exists calls, j, er. cbn [fst snd a_o a_chars a_k a_w a_err].
+  split; [exact Hcat|]. split; [exact Hrc|]. split; [reflexivity|]. split; [reflexivity|].
+  intros He. split; [split; [exact Hok2|split; [exact Herr2|split; [exact Hw2|exact He]]]|].
+  destruct (Hst He) as [-> ->]. rewrite Hbx. destruct m'; reflexivity.
 Qed.
 
 Lemma close_model (st : ast) : inv st ->
   exists (calls : list bytes) (j : nat) (er : option String.string),
     List.concat calls = ae_close (model_of st) footer /\
-    run_calls calls (a_w st) = (j, er, snd (ar_close st)) /\ fst (ar_close st) = Ret (werr er).
+    run_calls calls (a_w st) = (j, er, a_w (snd (ar_close st))) /\ fst (ar_close st) = Ret (werr er) /\
+    a_err (snd (ar_close st)) = er.
 Proof.
-  intros (Hok & Herr & Hw). destruct st as [o chars k w]. cbn [a_o a_chars a_k a_w] in *.
+  intros (Hok & Herr & Hw & He). destruct st as [o chars k w e]. cbn [a_o a_chars a_k a_w a_err] in *. subst e.
   pose proof (ga_close_model o chars k w footer Hok Herr Hw) as HM. cbv zeta in HM.
-  unfold model_of, ar_close. cbn [a_o a_chars a_k a_w].
-  destruct (ga_close o chars k w footer) as [e w4]. destruct HM as (calls & j & Hcat & Hrc).
-  exists calls, j, e. cbn [fst snd]. split; [exact Hcat|]. split; [exact Hrc|reflexivity].
+  unfold model_of, ar_close. cbn [a_o a_chars a_k a_w a_err].
+  destruct (ga_close o chars k w None footer) as [[[[e o2] chars2] k2] w4]. destruct HM as (calls & j & Hcat & Hrc).
+  exists calls, j, e. cbn [fst snd a_w a_err]. split; [exact Hcat|]. split; [exact Hrc|]. split; reflexivity.
 Qed.
 
 (* (TARGET) NO SILENT LOSS, any schedule of the writer *)
-Theorem ar_no_silent_loss (ops : list op) : forall (st : ast) (outs : list outc) (wf : wr),
-  inv st -> ar_run st ops = (outs, wf) -> all_nil outs ->
-  written_log wf = written_log (a_w st) ++ ae_run (model_of st) ops.
+Theorem ar_no_silent_loss (ops : list op) : forall (st : ast) (outs : list outc) (stf : ast),
+  inv st -> close_last ops -> ar_run st ops = (outs, stf) -> all_nil outs ->
+  written_log (a_w stf) = written_log (a_w st) ++ ae_run (model_of st) ops.
 Proof.
-  induction ops as [|c t IH]; intros st outs wf Hinv; cbn [ar_run ae_run].
+  unfold ar_run. induction ops as [|c t IH]; intros st outs stf Hinv Hcl; cbn [run ae_run].
   - intros H _. injection H as <- <-. rewrite app_nil_r. reflexivity.
-  - destruct c as [p|].
+  - destruct c as [p|]; cbn [call close_last] in *.
     + pose proof (write_model st p Hinv) as HM.
       destruct (ae_write (model_of st) p) as [out m'].
-      destruct HM as (calls & j & er & Hcat & Hrc & Hret & Hinv' & Hm').
+      destruct HM as (calls & j & er & Hcat & Hrc & Hret & _ & Hm').
       destruct (ar_write st p) as [r st']. cbn [fst snd] in *. subst r.
-      destruct (ar_run st' t) as [rs wf'] eqn:Er. intros H Hn. injection H as <- <-.
+      destruct (run call st' t) as [rs stf'] eqn:Er. intros H Hn. injection H as <- <-.
       apply all_nil_cons in Hn. destruct Hn as [Hr Hn]. destruct er as [x|]; [discriminate Hr|].
-      rewrite (IH st' rs wf' Hinv' Er Hn), (Hm' eq_refl).
+      destruct (Hm' eq_refl) as [Hinv' Hmo].
+      rewrite (IH st' rs stf' Hinv' Hcl Er Hn), Hmo.
       destruct (run_calls_ok _ _ _ _ Hrc) as [Hl _]. unfold written_log. rewrite Hl, concat_app, Hcat, app_assoc. reflexivity.
-    + destruct (close_model st Hinv) as (calls & j & er & Hcat & Hrc & Hret).
-      destruct (ar_close st) as [r w4]. cbn [fst snd] in *. subst r.
+    + subst t. destruct (close_model st Hinv) as (calls & j & er & Hcat & Hrc & Hret & _).
+      destruct (ar_close st) as [r st4]. cbn [fst snd run] in *. subst r.
       intros H Hn. injection H as <- <-. apply all_nil_cons in Hn. destruct Hn as [Hr _].
       destruct er as [x|]; [discriminate Hr|].
       destruct (run_calls_ok _ _ _ _ Hrc) as [Hl _]. unfold written_log. rewrite Hl, concat_app, Hcat. reflexivity.
@@ -2799,18 +2848,18 @@ Qed.
 
 (* (TARGET) NewArmor62EncoderStream (the header is already in the writer); Write1; ...; Writen; Close: if every
    call returned nil the writer holds the header followed by exactly the armor of the whole input *)
-Corollary ar_no_silent_loss_pieces (header : bytes) (w : wr) (pieces : list bytes) (outs : list outc) (wf : wr) :
+Corollary ar_no_silent_loss_pieces (header : bytes) (w : wr) (pieces : list bytes) (outs : list outc) (stf : ast) :
   written_log w = header ++ [dot; sp] ->
-  ar_run (fresh w) (session_ops pieces) = (outs, wf) -> all_nil outs ->
-  written_log wf = armor_seal (List.concat pieces) header footer.
+  ar_run (fresh w) (session_ops pieces) = (outs, stf) -> all_nil outs ->
+  written_log (a_w stf) = armor_seal (List.concat pieces) header footer.
 Proof.
-  intros Hh Hr Hn. rewrite (ar_no_silent_loss _ _ _ _ (fresh_inv w) Hr Hn), ae_run_session.
+  intros Hh Hr Hn. rewrite (ar_no_silent_loss _ _ _ _ (fresh_inv w) (close_last_session pieces) Hr Hn), ae_run_session.
   cbn [fresh a_w]. rewrite Hh, <- armor_stream_seal. unfold armor_stream, model_of. cbn [fresh a_o a_chars a_k Bx.fresh go_nbuf firstn].
   rewrite <- app_assoc. reflexivity.
 Qed.
 
-(* (TARGET) ERROR RETURNED AT ONCE: a call uses some j entries of the writer's schedule; it returns nil exactly when all of
-   them were nil, and an error it returns is one of them *)
+(* (TARGET) ERROR RETURNED AT ONCE: a call (on a stream without stored error) uses some j entries of the writer's schedule;
+   it returns nil exactly when all of them were nil, and an error it returns is one of them *)
 Theorem ar_write_reports (st : ast) (p : bytes) : inv st ->
   exists j er, fst (ar_write st p) = Ret (werr er) /\
     w_sched (a_w (snd (ar_write st p))) = skipn j (w_sched (a_w st)) /\
@@ -2827,24 +2876,98 @@ Qed.
 (* (TARGET) *)
 Theorem ar_close_reports (st : ast) : inv st ->
   exists j er, fst (ar_close st) = Ret (werr er) /\
-    w_sched (snd (ar_close st)) = skipn j (w_sched (a_w st)) /\
+    w_sched (a_w (snd (ar_close st))) = skipn j (w_sched (a_w st)) /\
     (er = None <-> Forall (fun x => x = None) (firstn j (w_sched (a_w st)))) /\
     (forall x, er = Some x -> In (Some x) (firstn j (w_sched (a_w st)))).
 Proof.
-  intros Hinv. destruct (close_model st Hinv) as (calls & j & er & _ & Hrc & Hret).
+  intros Hinv. destruct (close_model st Hinv) as (calls & j & er & _ & Hrc & Hret & _).
   pose proof (run_calls_sched calls (a_w st)) as HS. rewrite Hrc in HS. destruct HS as (H1 & H2 & H3).
   exists j, er. split; [exact Hret|]. split; [exact H1|]. split; [|exact H3].
   split; [exact H2|]. intros Hall. destruct er as [x|]; [|reflexivity].
   exfalso. pose proof (H3 x eq_refl) as Hin. rewrite Forall_forall in Hall. discriminate (Hall _ Hin).
 Qed.
 
-(* (TARGET) NOT STICKY: armorEncoderStream has no err field, and the base-X encoder behind it writes into a
-   bytes.Buffer, so ITS sticky error is never set: after a Write that returned an error the object is again one
-   on which Write and Close run normally ([inv]) *)
-Theorem ar_not_sticky (st : ast) (p : bytes) : inv st -> inv (snd (ar_write st p)).
+(* (TARGET) STICKY (the fix): with s.err set, every later Write AND Close returns it and leaves the object - the writer in
+   particular - untouched.  No hypothesis *)
+Theorem ar_sticky (x : String.string) (ops : list op) : forall (st : ast),
+  a_err st = Some x -> ar_run st ops = (map (fun _ => Ret (werr (Some x))) ops, st).
 Proof.
-  intros Hinv. pose proof (write_model st p Hinv) as HM. destruct (ae_write (model_of st) p) as [out m'].
-  destruct HM as (calls & j & er & _ & _ & _ & Hinv' & _). exact Hinv'.
+  unfold ar_run. induction ops as [|c t IH]; intros st He; cbn [run map]; [reflexivity|].
+  rewrite (call_sticky st c x He), (IH st He). reflexivity.
+Qed.
+(* (TARGET) a call - Write OR Close - that returned an error has stored it: every later Write and Close returns that same
+   error and nothing more is handed to the writer (the object, hence the writer's log, stays as that call left it).
+   No hypothesis at all: any object, any writer *)
+Theorem ar_error_sticks (st : ast) (c : op) (x : String.string * list gval) :
+  fst (call st c) = Ret (Some x) ->
+  a_err (snd (call st c)) = Some (fst x) /\
+  forall ops, ar_run (snd (call st c)) ops = (map (fun _ => Ret (Some x)) ops, snd (call st c)).
+Proof.
+  intros Hret. destruct (call_stores st c) as (er & Hr & He). rewrite Hr in Hret.
+  destruct er as [y|]; [|discriminate Hret]. injection Hret as <-. cbn [fst].
+  split; [exact He|]. intros ops. exact (ar_sticky y ops _ He).
+Qed.
+(* (TARGET) the instance for a failed Close: a second Close, or a Write after it, returns the stored error *)
+Corollary ar_close_error_sticks (st : ast) (x : String.string * list gval) :
+  fst (ar_close st) = Ret (Some x) ->
+  forall ops, ar_run (snd (ar_close st)) ops = (map (fun _ => Ret (Some x)) ops, snd (ar_close st)).
+Proof. intros H. exact (proj2 (ar_error_sticks st OpClose x H)). Qed.
+
+(* the premise of the generic lemmas on runs: "bad" = s.err set *)
+Lemma call_bad (st : ast) (c : op) (e : gerr) (st' : ast) : True -> call st c = (Ret e, st') ->
+  True /\ (a_err st <> None -> a_err st' <> None) /\ (e <> None -> a_err st' <> None) /\
+  (c = OpClose -> a_err st <> None -> e <> None).
+Proof.
+  intros _ Hc. split; [exact I|].
+  assert (Hst : forall x, a_err st = Some x -> e = werr (Some x) /\ st' = st).
+  { intros x Hx. rewrite (call_sticky st c x Hx) in Hc. injection Hc as <- <-. split; reflexivity. }
+  split; [|split].
+  - intros Hb. destruct (a_err st) as [x|] eqn:Ex; [|contradiction]. destruct (Hst x eq_refl) as [_ ->]. rewrite Ex. discriminate.
+  - intros He. destruct (call_stores st c) as (er & Hr & Hs). rewrite Hc in Hr, Hs. cbn [fst snd] in *.
+    injection Hr as ->. rewrite Hs. destruct er; [discriminate|contradiction].
+  - intros _ Hb. destruct (a_err st) as [x|] eqn:Ex; [|contradiction]. destruct (Hst x eq_refl) as [-> _]. discriminate.
+Qed.
+
+(* no call ends a run: the result list is as long as the list of calls *)
+Lemma ar_run_length (ops : list op) : forall st, List.length (fst (ar_run st ops)) = List.length ops.
+Proof.
+  unfold ar_run. induction ops as [|c t IH]; intros st; cbn [run]; [reflexivity|].
+  destruct (call_stores st c) as (er & Hr & _). destruct (call st c) as [r st']. cbn [fst] in Hr. subst r.
+  specialize (IH st'). destruct (run call st' t) as [rs stf]. cbn [fst List.length] in *. rewrite IH. reflexivity.
+Qed.
+
+(* (TARGET) C14: in ANY run (any object, any writer, any calls), after a call that returned an error no later Close
+   returns nil.  No hypothesis *)
+Theorem ar_no_nil_close_after_error (ops : list op) (st : ast) (outs : list outc) (stf : ast) :
+  ar_run st ops = (outs, stf) ->
+  forall i j e, (i < j)%nat -> nth_error outs i = Some (Ret (Some e)) -> nth_error ops j = Some OpClose ->
+  nth_error outs j <> Some (Ret None).
+Proof.
+  intros Hr. exact (run_no_nil_close_after_error ast call (fun _ => True) (fun s => a_err s <> None) call_bad ops st outs stf I Hr).
+Qed.
+
+(* (TARGET) Write p1; ..; Write pn; Close: if the final Close returned nil, every call returned nil.  No hypothesis *)
+Theorem ar_close_nil_all_nil (pieces : list bytes) (st : ast) (outs : list outc) (stf : ast) :
+  ar_run st (session_ops pieces) = (outs, stf) -> last outs (Halt EmptyString) = Ret None -> all_nil outs.
+Proof.
+  intros Hr Hlast. unfold session_ops, ar_run in Hr.
+  apply (run_last_close_nil ast call (fun _ => True) (fun s => a_err s <> None) call_bad (map OpWrite pieces) st outs stf I Hr);
+    [|exact Hlast].
+  pose proof (ar_run_length (map OpWrite pieces ++ [OpClose]) st) as HL. unfold ar_run in HL. rewrite Hr in HL. cbn [fst] in HL.
+  rewrite HL, app_length. cbn [List.length]. lia.
+Qed.
+
+(* (TARGET) C14 AS WORDED for the armor stream: NewArmor62EncoderStream (header already written); Write p1; ..; Write pn;
+   Close, over a writer with ANY schedule: if the final Close returned nil then every call returned nil and the
+   writer holds exactly the armor of the whole input.  No hypothesis on the writer beyond its being the logging writer
+   (what it is handed when it reports success is what it holds) *)
+Theorem ar_close_nil_complete (header : bytes) (w : wr) (pieces : list bytes) (outs : list outc) (stf : ast) :
+  written_log w = header ++ [dot; sp] ->
+  ar_run (fresh w) (session_ops pieces) = (outs, stf) -> last outs (Halt EmptyString) = Ret None ->
+  all_nil outs /\ written_log (a_w stf) = armor_seal (List.concat pieces) header footer.
+Proof.
+  intros Hh Hr Hlast. pose proof (ar_close_nil_all_nil pieces (fresh w) outs stf Hr Hlast) as Hn.
+  split; [exact Hn|]. exact (ar_no_silent_loss_pieces header w pieces outs stf Hh Hr Hn).
 Qed.
 End S.
 
@@ -2867,20 +2990,31 @@ Definition ex_in : bytes := repeat x61 32.
 Example ex_ar_complete :
   let r := ar_run ex_footer (fresh (mkWr [] [None; None])) (session_ops [ex_in]) in
   fst r = [Ret None; Ret None] /\
-  written_log (snd r) = ae_session (mkAe [] [] 0) [ex_in] ex_footer.
+  written_log (a_w (snd r)) = ae_session (mkAe [] [] 0) [ex_in] ex_footer.
 Proof. vm_compute. split; reflexivity. Qed.
 
-(* FINDING (no sticky error).  32 bytes give 43 characters: two words of 15 and 13 left.  The writer refuses the
-   first word (takes nothing) and then works again.  Write returns the error; the word has left s.buf and
-   nWords counts it.  Close then writes the second word, the last characters and the footer and returns NIL:
-   the text the writer accepted is the complete armor WITHOUT its first 15 characters. *)
+(* THE FORMER FINDING, NOW FIXED.  32 bytes give 43 characters: two words of 15 and 13 left.  The writer refuses the first
+   word (its 2nd call: the header was its 1st; it takes nothing) and works again afterwards.  Write returns the
+   error; the word has left s.buf and nWords counts it.  Before the fix Close then wrote the second word, the last
+   characters and the footer and returned NIL for an armor without its first 15 characters.  Now Write has stored the
+   error: Close returns it and hands NOTHING more to the writer (the log holds the one refused call; no footer) *)
 Example ex_ar_close_after_failed_write :
   let sched := [Some "ErrIO"%string] in
   let r := ar_run ex_footer (fresh (mkWr [] sched)) (session_ops [ex_in]) in
   let good := ae_session (mkAe [] [] 0) [ex_in] ex_footer in
-  fst r = [Ret (Some ("ErrIO"%string, [])); Ret None] /\
-  took sched (w_log (snd r)) = skipn 16 good /\ List.length good = 52%nat.
+  fst r = [Ret (Some ("ErrIO"%string, [])); Ret (Some ("ErrIO"%string, []))] /\
+  w_log (a_w (snd r)) = [firstn 15 good] /\ took sched (w_log (a_w (snd r))) = [] /\
+  a_err (snd r) = Some "ErrIO"%string /\ List.length good = 52%nat.
 Proof. vm_compute. repeat split; reflexivity. Qed.
+(* a Close that fails (at the Write of the last characters, the writer's 5th call here) stores its error too: a second
+   Close and a later Write return it, nothing more is written *)
+Example ex_ar_close_error_sticks :
+  let sched := [None; None; None; None; Some "ErrIO"%string] in
+  let r := ar_run ex_footer (fresh (mkWr [] sched)) [OpWrite ex_in; OpClose; OpClose; OpWrite ex_in; OpClose] in
+  fst r = [Ret None; Ret (Some ("ErrIO"%string, [])); Ret (Some ("ErrIO"%string, [])); Ret (Some ("ErrIO"%string, []));
+           Ret (Some ("ErrIO"%string, []))] /\
+  List.length (w_log (a_w (snd r))) = 5%nat.
+Proof. vm_compute. split; reflexivity. Qed.
 End Ar.
 
 
@@ -2897,7 +3031,8 @@ Definition g_e (e : option String.string) : gval := match e with None => VNil | 
 Definition g_w (w : wr) : gval := VList [VList (map VBytes (w_log w)); VList (map g_e (w_sched w))].
 Definition g_go (o : gobj) : gval :=
   VList [g_e (go_err o); VBytes (go_buf o); VInt (Z.of_nat (go_nbuf o)); VBytes (go_out o); g_w (go_w o)].
-Definition g_ast (st : ast) : gval := VList [g_go (a_o st); VBytes (a_chars st); VInt (Z.of_N (a_k st)); g_w (a_w st)].
+Definition g_ast (st : ast) : gval :=
+  VList [g_go (a_o st); VBytes (a_chars st); VInt (Z.of_N (a_k st)); g_w (a_w st); g_e (a_err st)].
 
 Definition d_e (v : gval) : option (option String.string) :=
   match v with VNil => Some None | VErr x [] => Some (Some x) | _ => None end.
@@ -2925,8 +3060,8 @@ Definition d_go (v : gval) : option gobj :=
   end.
 Definition d_ast (v : gval) : option ast :=
   match v with
-  | VList [o; VBytes ch; VInt k; w] =>
-    match d_go o, d_w w with Some o', Some w' => Some (mkAst o' ch (Z.to_N k) w') | _, _ => None end
+  | VList [o; VBytes ch; VInt k; w; e] =>
+    match d_go o, d_w w, d_e e with Some o', Some w', Some e' => Some (mkAst o' ch (Z.to_N k) w' e') | _, _, _ => None end
   | _ => None
   end.
 
@@ -2941,9 +3076,9 @@ Proof. destruct w as [l s]. unfold g_w, d_w. cbn [w_log w_sched]. rewrite d_bs_g
 Lemma d_go_g (o : gobj) : d_go (g_go o) = Some o.
 Proof. destruct o as [e buf n out w]. unfold g_go, d_go. cbn [go_err go_buf go_nbuf go_out go_w]. rewrite d_e_g, d_w_g, Nat2Z.id. reflexivity. Qed.
 Lemma d_ast_g (st : ast) : d_ast (g_ast st) = Some st.
-Proof. destruct st as [o ch k w]. unfold g_ast, d_ast. cbn [a_o a_chars a_k a_w]. rewrite d_go_g, d_w_g, N2Z.id. reflexivity. Qed.
+Proof. destruct st as [o ch k w e]. unfold g_ast, d_ast. cbn [a_o a_chars a_k a_w a_err]. rewrite d_go_g, d_w_g, d_e_g, N2Z.id. reflexivity. Qed.
 
-(* encoder.Encode(packet) = one Write of the packet bytes into the armor stream *)
+(* encoder.Encode(packet) = one Write of the packet bytes into the armor stream (which now keeps its first error) *)
 Definition arm_step : step := fun o pkt =>
   match d_ast o with
   | Some st =>
@@ -2998,13 +3133,14 @@ Proof.
   intros Hmem o1 o2 pkt (st & pieces & -> & Hinv & -> & Hm & Hw). unfold arm_step. rewrite d_ast_g, Hmem.
   pose proof (write_model st pkt Hinv) as HM.
   destruct (ae_write (model_of st) pkt) as [out m'] eqn:Ew.
-  destruct HM as (calls & j & er & Hcat & Hrc & Hret & Hinv' & Hm').
+  destruct HM as (calls & j & er & Hcat & Hrc & Hret & _ & Hm').
   destruct (ar_write st pkt) as [r st']. cbn [fst snd] in *. subst r.
   intros He. destruct er as [x|]; [discriminate He|]. clear He.
+  destruct (Hm' eq_refl) as [Hinv' Hmo].
   split; [reflexivity|].
   exists st', (pieces ++ [pkt]). split; [reflexivity|]. split; [exact Hinv'|].
   split; [rewrite concat_app; cbn [List.concat]; rewrite app_nil_r; reflexivity|].
-  rewrite ae_writes_snoc, <- Hm, Ew. cbn [fst snd]. split; [exact (Hm' eq_refl)|].
+  rewrite ae_writes_snoc, <- Hm, Ew. cbn [fst snd]. split; [exact Hmo|].
   destruct (run_calls_ok _ _ _ _ Hrc) as [Hl _]. unfold written_log in *. rewrite Hl, concat_app, Hcat, Hw, app_assoc. reflexivity.
 Qed.
 Lemma arm_sim : step_sim R arm_step GoAstProofs5a.mem_enc.
@@ -3016,16 +3152,16 @@ Proof. exact (arm_sim_gen _ is_mem_5a). Qed.
    footer) of exactly the message the in-memory encryption stream produces for the same calls. *)
 Theorem enc_armor_no_silent_loss (c : crypto) (footer : bytes) (w0 : wr) (v : version) (sender : option bytes)
         (rcpts : list rcpt) (ra rb rc : rng) (ops : list op) (outs : list outc) (st' : GoAstProofs5a.es_state)
-        (sta : ast) (wf : wr) :
+        (sta stf : ast) :
   written_log w0 = W0 ->
   Enc.session c arm_step (Enc.fresh v (g_ast (fresh w0))) v sender rcpts ra rb rc ops = (outs, st') ->
   all_nil outs ->
   d_ast (GoAstProofs5a.es_enc st') = Some sta ->
-  ar_close footer sta = (Ret None, wf) ->
+  ar_close footer sta = (Ret None, stf) ->
   exists (stm : GoAstProofs5a.es_state) (packets : list bytes),
     Enc.session c GoAstProofs5a.mem_enc (Enc.fresh v (VBytes [])) v sender rcpts ra rb rc ops = (outs, stm) /\
     GoAstProofs5a.es_enc stm = VBytes (List.concat packets) /\
-    written_log wf = W0 ++ ae_session (mkAe [] [] 0) packets footer.
+    written_log (a_w stf) = W0 ++ ae_session (mkAe [] [] 0) packets footer.
 Proof.
   intros HW Hs Hn Hd Hc.
   assert (HR0 : R (g_ast (fresh w0)) (VBytes [])).
@@ -3037,7 +3173,7 @@ Proof.
   destruct HR as (st & pieces & He1 & Hinv & He2 & Hm & Hw).
   rewrite He1, d_ast_g in Hd. injection Hd as <-.
   exists stm, pieces. split; [exact Hsm|]. split; [exact He2|].
-  destruct (close_model footer st Hinv) as (calls & j & er & Hcat & Hrc & Hret).
+  destruct (close_model footer st Hinv) as (calls & j & er & Hcat & Hrc & Hret & _).
   rewrite Hc in Hret, Hrc. cbn [fst snd] in *. injection Hret as Her. destruct er as [x|]; [discriminate Her|].
   destruct (run_calls_ok _ _ _ _ Hrc) as [Hl _]. unfold written_log in *.
   rewrite Hl, concat_app, Hcat, Hw, Hm, ae_session_writes, app_assoc. reflexivity.
@@ -3048,19 +3184,19 @@ End S.
 (* (TARGET) the same with the header: the writer ends up holding Armor62Seal of the in-memory ciphertext *)
 Corollary enc_armor_no_silent_loss_seal (c : crypto) (header footer : bytes) (w0 : wr) (v : version) (sender : option bytes)
         (rcpts : list rcpt) (ra rb rc : rng) (ops : list op) (outs : list outc) (st' : GoAstProofs5a.es_state)
-        (sta : ast) (wf : wr) :
+        (sta stf : ast) :
   written_log w0 = header ++ [dot; sp] ->
   Enc.session c arm_step (Enc.fresh v (g_ast (fresh w0))) v sender rcpts ra rb rc ops = (outs, st') ->
   all_nil outs ->
   d_ast (GoAstProofs5a.es_enc st') = Some sta ->
-  ar_close footer sta = (Ret None, wf) ->
+  ar_close footer sta = (Ret None, stf) ->
   exists (stm : GoAstProofs5a.es_state) (msg : bytes),
     Enc.session c GoAstProofs5a.mem_enc (Enc.fresh v (VBytes [])) v sender rcpts ra rb rc ops = (outs, stm) /\
     GoAstProofs5a.es_enc stm = VBytes msg /\
-    written_log wf = armor_seal msg header footer.
+    written_log (a_w stf) = armor_seal msg header footer.
 Proof.
   intros HW Hs Hn Hd Hc.
-  destruct (enc_armor_no_silent_loss (header ++ [dot; sp]) c footer w0 v sender rcpts ra rb rc ops outs st' sta wf HW Hs Hn Hd Hc)
+  destruct (enc_armor_no_silent_loss (header ++ [dot; sp]) c footer w0 v sender rcpts ra rb rc ops outs st' sta stf HW Hs Hn Hd Hc)
     as (stm & packets & H1 & H2 & H3).
   exists stm, (List.concat packets). split; [exact H1|]. split; [exact H2|].
   rewrite H3, <- armor_stream_seal. unfold armor_stream. rewrite <- app_assoc. reflexivity.
@@ -3081,17 +3217,17 @@ Qed.
    and the writer holds exactly Armor62Seal of the complete ciphertext. *)
 Theorem stack_close_nil_complete (c : crypto) (header footer : bytes) (w0 : wr) (v : version) (sender : option bytes)
         (rcpts : list rcpt) (ra rb rc : rng) (pieces : list bytes) (outs : list outc) (st' : GoAstProofs5a.es_state)
-        (oa : gval) (b : bool) (sta : ast) (wf : wr) :
+        (oa : gval) (b : bool) (sta stf : ast) :
   written_log w0 = header ++ [dot; sp] ->
   Enc.session c (codec arm_step) (Enc.fresh v (codec_obj (g_ast (fresh w0)))) v sender rcpts ra rb rc (session_ops pieces) = (outs, st') ->
   List.length outs = S (S (List.length pieces)) -> last outs (Halt EmptyString) = Ret None ->
   GoAstProofs5a.es_enc st' = VList [oa; VBool b] -> d_ast oa = Some sta ->
-  ar_close footer sta = (Ret None, wf) ->
+  ar_close footer sta = (Ret None, stf) ->
   all_nil outs /\
   exists (stm : GoAstProofs5a.es_state) (msg : bytes),
     Enc.session c GoAstProofs5a.mem_enc (Enc.fresh v (VBytes [])) v sender rcpts ra rb rc (session_ops pieces) = (outs, stm) /\
     GoAstProofs5a.es_enc stm = VBytes msg /\
-    written_log wf = armor_seal msg header footer.
+    written_log (a_w stf) = armor_seal msg header footer.
 Proof.
   intros HW Hs Hl Hlast Henc Hd Hc.
   pose proof (Enc.es_close_nil_all_nil c codec_broken (codec arm_step) (Enc.fresh v (codec_obj (g_ast (fresh w0))))
@@ -3109,7 +3245,7 @@ Proof.
   rewrite Henc in Ha. unfold codec_obj in Ha. injection Ha as -> _.
   rewrite He1, d_ast_g in Hd. injection Hd as <-.
   exists stm, (List.concat packets). split; [exact Hsm|]. split; [exact He2|].
-  destruct (close_model footer st Hinv) as (calls & j & er & Hcat & Hrc & Hret).
+  destruct (close_model footer st Hinv) as (calls & j & er & Hcat & Hrc & Hret & _).
   rewrite Hc in Hret, Hrc. cbn [fst snd] in *. injection Hret as Her. destruct er as [x|]; [discriminate Her|].
   destruct (run_calls_ok _ _ _ _ Hrc) as [Hl' _]. unfold written_log in *.
   rewrite Hl', concat_app, Hcat, Hw, Hm, <- armor_stream_seal. unfold armor_stream. rewrite ae_session_writes.
@@ -3117,11 +3253,11 @@ Proof.
 Qed.
 
 (* what the armor stream's Close leaves in the writer, given the relation R at the end of the packet stream *)
-Lemma close_after_R (header footer : bytes) (oa o2 : gval) (sta : ast) (wf : wr) :
+Lemma close_after_R (header footer : bytes) (oa o2 : gval) (sta stf : ast) :
   (exists a, VList [oa; VBool false] = codec_obj a /\ R (header ++ [dot; sp]) a o2) \/
   R (header ++ [dot; sp]) oa o2 ->
-  d_ast oa = Some sta -> ar_close footer sta = (Ret None, wf) ->
-  exists msg, o2 = VBytes msg /\ written_log wf = armor_seal msg header footer.
+  d_ast oa = Some sta -> ar_close footer sta = (Ret None, stf) ->
+  exists msg, o2 = VBytes msg /\ written_log (a_w stf) = armor_seal msg header footer.
 Proof.
   intros HR Hd Hc.
   assert (HR' : R (header ++ [dot; sp]) oa o2).
@@ -3129,7 +3265,7 @@ Proof.
   destruct HR' as (st & packets & He1 & Hinv & He2 & Hm & Hw).
   rewrite He1, d_ast_g in Hd. injection Hd as <-.
   exists (List.concat packets). split; [exact He2|].
-  destruct (close_model footer st Hinv) as (calls & j & er & Hcat & Hrc & Hret).
+  destruct (close_model footer st Hinv) as (calls & j & er & Hcat & Hrc & Hret & _).
   rewrite Hc in Hret, Hrc. cbn [fst snd] in *. injection Hret as Her. destruct er as [x|]; [discriminate Her|].
   destruct (run_calls_ok _ _ _ _ Hrc) as [Hl' _]. unfold written_log in *.
   rewrite Hl', concat_app, Hcat, Hw, Hm, <- armor_stream_seal. unfold armor_stream. rewrite ae_session_writes.
@@ -3145,17 +3281,17 @@ Qed.
 (* (TARGET) the same for the attached-signature stream (NewSignArmor62Stream) ... *)
 Theorem sign_stack_close_nil_complete (c : crypto) (F : nat) (header footer : bytes) (w0 : wr) (v : version) (signer : option bytes)
         (r : rng) (pieces : list bytes) (outs : list outc) (st' : GoAstProofs6a.sas_state)
-        (oa : gval) (sta : ast) (wf : wr) :
+        (oa : gval) (sta stf : ast) :
   written_log w0 = header ++ [dot; sp] ->
   SignA.session c F (codec arm_step) v (codec_obj (g_ast (fresh w0))) signer r (session_ops pieces) = (outs, Some st') ->
   List.length outs = S (S (List.length pieces)) -> last outs (Halt EmptyString) = Ret None ->
   GoAstProofs6a.sas_enc st' = VList [oa; VBool false] -> d_ast oa = Some sta ->
-  ar_close footer sta = (Ret None, wf) ->
+  ar_close footer sta = (Ret None, stf) ->
   all_nil outs /\
   exists (stm : GoAstProofs6a.sas_state) (msg : bytes),
     SignA.session c F GoAstProofs6a.mem_enc v (VBytes []) signer r (session_ops pieces) = (outs, Some stm) /\
     GoAstProofs6a.sas_enc stm = VBytes msg /\
-    written_log wf = armor_seal msg header footer.
+    written_log (a_w stf) = armor_seal msg header footer.
 Proof.
   intros HW Hs Hl Hlast Henc Hd Hc.
   pose proof (SignA.sas_close_nil_all_nil c F codec_broken (codec arm_step) _ v signer r pieces outs _
@@ -3166,24 +3302,24 @@ Proof.
               v (codec_obj (g_ast (fresh w0))) (VBytes []) signer r _ outs _
               (ex_intro _ (g_ast (fresh w0)) (conj eq_refl (R_fresh _ w0 HW))) Hs Hn) as (st1 & stm & Hst1 & Hsm & [HR _]).
   injection Hst1 as <-. rewrite Henc in HR.
-  destruct (close_after_R header footer oa _ sta wf (or_introl HR) Hd Hc) as (msg & Hmsg & Hwf).
+  destruct (close_after_R header footer oa _ sta stf (or_introl HR) Hd Hc) as (msg & Hmsg & Hwf).
   exists stm, msg. split; [exact Hsm|]. split; [exact Hmsg|exact Hwf].
 Qed.
 
 (* (TARGET) ... and for the signcryption stream (NewSigncryptArmor62SealStream) *)
 Theorem signcrypt_stack_close_nil_complete (c : crypto) (header footer : bytes) (w0 : wr) (signer : option bytes)
         (boxes : list bytes) (syms : list (bytes * bytes)) (ra rk rb : bytes) (pieces : list bytes) (outs : list outc)
-        (st' : GoAstProofs6b.sss_state) (oa : gval) (sta : ast) (wf : wr) :
+        (st' : GoAstProofs6b.sss_state) (oa : gval) (sta stf : ast) :
   written_log w0 = header ++ [dot; sp] ->
   Sc.session c (codec arm_step) (Sc.fresh (codec_obj (g_ast (fresh w0))) signer) boxes syms ra rk rb (session_ops pieces) = (outs, st') ->
   List.length outs = S (S (List.length pieces)) -> last outs (Halt EmptyString) = Ret None ->
   GoAstProofs6b.ss_enc st' = VList [oa; VBool false] -> d_ast oa = Some sta ->
-  ar_close footer sta = (Ret None, wf) ->
+  ar_close footer sta = (Ret None, stf) ->
   all_nil outs /\
   exists (stm : GoAstProofs6b.sss_state) (msg : bytes),
     Sc.session c GoAstProofs6b.mem_enc (Sc.fresh (VBytes []) signer) boxes syms ra rk rb (session_ops pieces) = (outs, stm) /\
     GoAstProofs6b.ss_enc stm = VBytes msg /\
-    written_log wf = armor_seal msg header footer.
+    written_log (a_w stf) = armor_seal msg header footer.
 Proof.
   intros HW Hs Hl Hlast Henc Hd Hc.
   pose proof (Sc.sss_close_nil_all_nil c codec_broken (codec arm_step) (Sc.fresh (codec_obj (g_ast (fresh w0))) signer)
@@ -3194,7 +3330,7 @@ Proof.
               (Sc.fresh (codec_obj (g_ast (fresh w0))) signer) (Sc.fresh (VBytes []) signer) boxes syms ra rk rb _ outs st'
               (conj (ex_intro _ (g_ast (fresh w0)) (conj eq_refl (R_fresh _ w0 HW))) eq_refl) Hs Hn) as (stm & Hsm & [HR _]).
   rewrite Henc in HR.
-  destruct (close_after_R header footer oa _ sta wf (or_introl HR) Hd Hc) as (msg & Hmsg & Hwf).
+  destruct (close_after_R header footer oa _ sta stf (or_introl HR) Hd Hc) as (msg & Hmsg & Hwf).
   exists stm, msg. split; [exact Hsm|]. split; [exact Hmsg|exact Hwf].
 Qed.
 
@@ -3203,7 +3339,7 @@ Definition ex_stack (sched : list (option String.string)) (ops : list op) :=
   let w0 := mkWr [[x48; x2e; x20]] sched in      (* "H. " *)
   let r := Enc.session toy_crypto arm_step (Enc.fresh v2 (g_ast (fresh w0))) v2 None Enc.ex_rcp Enc.ex_rnd Enc.ex_rnd Enc.ex_rnd ops in
   match d_ast (GoAstProofs5a.es_enc (snd r)) with
-  | Some sta => let (rc, wf) := ar_close [x46] sta in (fst r ++ [rc], Some wf)
+  | Some sta => let (rc, stf) := ar_close [x46] sta in (fst r ++ [rc], Some (a_w stf))
   | None => (fst r, None)
   end.
 Example ex_stack_complete :
@@ -3212,12 +3348,12 @@ Example ex_stack_complete :
   fst r = [Ret None; Ret None; Ret None; Ret None; Ret None] /\
   option_map written_log (snd r) = Some (armor_seal (Enc.mem_bytes (snd m)) [x48] [x46]).
 Proof. vm_compute. split; reflexivity. Qed.
-(* a writer that fails once: at a call made during Close of the encryption stream, that Close returns the error (and
-   the armor stream's Close, called all the same, returns nil: it has no sticky error); at the very last call,
-   the armor stream's Close returns it *)
+(* a writer that fails once: at a call made during Close of the encryption stream, that Close returns the error, and
+   the armor stream's Close, called all the same, returns the error its Write stored (before the fix it returned nil:
+   no sticky error); at the very last call, the armor stream's Close returns it *)
 Example ex_stack_fault :
   fst (ex_stack (repeat None 33 ++ [Some "ErrIO"%string]) (session_ops [[x61; x62]; [x63]]))
-  = [Ret None; Ret None; Ret None; Ret (Some ("ErrIO"%string, [])); Ret None] /\
+  = [Ret None; Ret None; Ret None; Ret (Some ("ErrIO"%string, [])); Ret (Some ("ErrIO"%string, []))] /\
   fst (ex_stack (repeat None 43 ++ [Some "ErrIO"%string]) (session_ops [[x61; x62]; [x63]]))
   = [Ret None; Ret None; Ret None; Ret None; Ret (Some ("ErrIO"%string, []))].
 Proof. vm_compute. split; reflexivity. Qed.
@@ -3262,7 +3398,12 @@ Print Assumptions Ar.ar_no_silent_loss.
 Print Assumptions Ar.ar_no_silent_loss_pieces.
 Print Assumptions Ar.ar_write_reports.
 Print Assumptions Ar.ar_close_reports.
-Print Assumptions Ar.ar_not_sticky.
+Print Assumptions Ar.ar_sticky.
+Print Assumptions Ar.ar_error_sticks.
+Print Assumptions Ar.ar_close_error_sticks.
+Print Assumptions Ar.ar_no_nil_close_after_error.
+Print Assumptions Ar.ar_close_nil_all_nil.
+Print Assumptions Ar.ar_close_nil_complete.
 Print Assumptions Comp.enc_armor_no_silent_loss.
 Print Assumptions Comp.enc_armor_no_silent_loss_seal.
 Print Assumptions Enc.es_no_nil_close_after_error.
@@ -3288,6 +3429,7 @@ Print Assumptions Enc.ex_enc_close_after_failed_write.
 Print Assumptions SignA.ex_sas_close_after_failed_write.
 Print Assumptions Sc.ex_sc_close_after_failed_write.
 Print Assumptions Ar.ex_ar_close_after_failed_write.
+Print Assumptions Ar.ex_ar_close_error_sticks.
 
 (* NOT DONE (statements that would complete the picture):
    - "the complete message" is stated against the never-failing in-memory instance (mem_enc) of the SAME specification
@@ -3299,4 +3441,8 @@ Print Assumptions Ar.ex_ar_close_after_failed_write.
      1, 1, 184, 1, ... - and keeps its first error) is not modelled beyond [codec]: [step] abstracts it, as in
      GoAstProofs5a/6a/6b;
    - the detached signer over the armor stream (NewSignDetachedArmor62Stream): one packet at the constructor, one at
-     Close; not stated separately. *)
+     Close; not stated separately;
+   - the armor stream AFTER A Close THAT SUCCEEDED: s.err stays nil, so a second Close runs again (it writes the last
+     characters and the footer a second time and can return nil); the fix is about errors and does not address it, and
+     ar_no_silent_loss excludes it by [close_last].  Every other sequence of calls is covered (ar_error_sticks,
+     ar_no_nil_close_after_error hold for ANY calls). *)
